@@ -1240,6 +1240,11 @@ class NestedSampler(BaseNestedSampler):
         Finalise things after sampling
         """
         logger.info("Finalising")
+        # The sampling time is no longer updated once the sampler is
+        # finalised, so account for the time up to this point first. This is
+        # done before the live points are consumed, whilst the state of the
+        # sampler is still consistent.
+        self.update_sampling_time()
         for i, p in enumerate(self.live_points):
             self.state.increment(p["logL"], nlive=self.nlive - i)
             self.nested_samples.append(p)
@@ -1251,9 +1256,6 @@ class NestedSampler(BaseNestedSampler):
         # Must be set before updating the state since this can checkpoint the
         # sampler and a sampler without live points that is not finalised
         # would draw new live points when resumed.
-        # The sampling time is no longer updated once the sampler is
-        # finalised, so account for the time up to this point first.
-        self.update_sampling_time()
         self.finalised = True
         self.update_state(force=True)
 
